@@ -7,15 +7,18 @@ VERIF = os.path.dirname(os.path.dirname(os.path.abspath(__file__)))
 
 CHECKS = {
     "C10": dict(
-        technique="Coq proof (ring/nia over Z; Flocq model of iloc) + differential correspondence hook-vs-extracted-model",
-        text="Kernel-checked theorems about the transcription of in_sphere_test_exact: no i64 wrap on the grid, equality with the sign of the "
-             "textbook 5x5 lifted determinant (independent Laplace definition) for ALL grid points, geometric meaning (inside/on/outside the "
-             "circumsphere for positive orientation), alternation. iloc: monotonicity of the composed correctly-rounded operations (real level). "
-             "Tie to the code: the hooked predicate against the extracted model on exhaustive small grids, random 52-bit and adversarial tuples "
-             "(debug+release), and the bit-exact Flocq model of cuboid/iloc evaluated inside Coq on every position the algorithm can query.",
-        note="Trusted: Coq kernel, extraction (ExtrOcamlBasic/ExtrOcamlZBigInt), zarith, harness/comparator. The universal in-range theorem for iloc "
-             "over all boxes (a Flocq error analysis) is not proved: range and monotonicity of the real map are checked per box on the implementation's "
-             "own values. Orientation of the duals handed to the predicate is validated per created vertex in the C01/C05 runs, proved only for the initial box.",
+        technique="Coq proof (ring/nia over Z; Flocq binary64 model of cuboid/iloc with rounding-error analysis) + the predicate's Gallina model regenerated from "
+                  "src/geometry.rs by a translator on every run + differential correspondence hook-vs-extracted-model",
+        text="Kernel-checked theorems: no i64 wrap on the grid, equality with the sign of the textbook 5x5 lifted determinant (independent Laplace definition) for ALL grid "
+             "points, geometric meaning (inside/on/outside the circumsphere for positive orientation), alternation, similarity invariance. Grid map on IEEE binary64 "
+             "(Flocq): for every box with 2^-900 <= width <= scale <= 2^900 and |anchor| <= 2^40 widths and every position in [anchor - w, anchor + 2w]: no overflow, "
+             "1 <= t <= 31/16, the 52 mantissa bits are (t-1)*2^52 in [0, 2^52), monotone in the position. Tie to the code: (a) tools/translate_insphere.py executes "
+             "in_sphere_test_exact and its macros symbolically into a Gallina definition, Coq proves it equal to insphere_model on every run (C10_gen.v); (b) the hooked "
+             "predicate against the extracted model on exhaustive small grids, random 52-bit and adversarial tuples (debug+release); (c) the bit-exact Flocq model of "
+             "cuboid/iloc evaluated inside Coq on every position the algorithm can query.",
+        note="Trusted: Coq kernel, the translator (its parser of the Rust subset used by the predicate; anything it does not understand is an error), extraction, zarith, "
+             "harness/comparator. Boxes outside the sane-magnitude hypotheses (offsets beyond 2^40 widths, widths near the under/overflow thresholds) are covered by the per-box "
+             "differential run only. Orientation of the duals handed to the predicate is validated per created vertex in the C01/C05 runs, proved only for the initial box.",
         design="5 C10"),
 }
 
